@@ -331,7 +331,8 @@ pub fn run(a: &Args) -> Report {
     for i in 0..n {
         let g = *rng.pick(&[SEC, 30 * SEC, 4 * MIN, 4 * MIN, 10 * SEC]);
         let holders = 30 + rng.usize(40);
-        scenario(&mut r, rng.u64(), g, holders, mix(a.shard, i));
+        let s = rng.u64();
+        super::guarded(&mut r, json!({"class":"timeline","seed":s.to_string(),"gap_ns":g,"holders":holders}), |r| scenario(r, s, g, holders, mix(a.shard, i)));
         r.count("timelines");
     }
     r
